@@ -27,14 +27,14 @@ func (C19) Describe() CheckInfo {
 	}
 }
 
-var c19Variants = []string{"read-fault", "write-fault", "devfull", "open-fault", "decode-fail", "eval-fail", "complete", "exit-status", "null-input", "auto-format", "encoder-domain", "nul-output"}
+var c19Variants = []string{"read-fault", "write-fault", "devfull", "open-fault", "decode-fail", "eval-fail", "complete", "exit-status", "null-input", "auto-format", "encoder-domain", "nul-output", "malformed"}
 
 var badYAML = []string{"a: [1, 2\n", "\tx: 1\n", "a: b: c\n", "a: \"unterminated\n", "- x\ny: 1\n", "a: *nope\n", "{a: 1\n", "a: 1\n  b: 2\n c: 3\n", "a: !!int notanint\nb: [\n"}
 
 func (C19) Generate(c *Ctx, r *Rand, index int) *Scenario {
 	sc := &Scenario{Kind: "proc", Meta: map[string]any{}}
 	rs := r.Fork("shape")
-	variant := c19Variants[rs.Weighted([]int{16, 14, 3, 12, 9, 8, 8, 10, 4, 6, 5, 5})]
+	variant := c19Variants[rs.Weighted([]int{16, 14, 3, 12, 9, 8, 8, 10, 4, 6, 5, 5, 10})]
 	sc.Meta["variant"] = variant
 	evalAll := rs.Chance(1, 4)
 	format := "yaml"
@@ -247,6 +247,40 @@ func (C19) Generate(c *Ctx, r *Rand, index int) *Scenario {
 		sc.Argv = argv
 		sc.Meta["expr"] = expr
 		sc.Meta["keep_flags"] = []any{"ea"}
+	case "malformed":
+		// a record that an independent reader of the format rejects, at some position of some file
+		format = Pick(rs, []string{"csv", "tsv", "json", "toml", "lua"})
+		nf := rs.Range(1, 3)
+		bad := rs.Intn(nf)
+		ext := FormatByName(format).Ext
+		for i := 0; i < nf; i++ {
+			text := genRecords(r.Fork("rec"+strconv.Itoa(i)), format, i)
+			if i == bad {
+				for try := 0; try < 20; try++ {
+					cand := breakRecords(rf, format, text)
+					if MalformedFor(format, cand) {
+						text = cand
+						break
+					}
+				}
+			}
+			sc.Files = append(sc.Files, File{Name: "f" + strconv.Itoa(i+1) + "." + ext, Data: Bytes(text), Mode: 0644})
+		}
+		sc.Meta["bad_file"] = sc.Files[bad].Name
+		sc.Meta["freeze_data"] = true
+		out = "json0"
+		evalAll = rs.Chance(1, 4)
+		if evalAll {
+			argv = append(argv, "ea")
+		}
+		argv = append(argv, "-p="+format, "-o=json", "-I0", ".")
+		for _, f := range sc.Files {
+			argv = append(argv, f.Name)
+		}
+		sc.Argv = argv
+		sc.Meta["expr"] = "."
+		sc.Meta["format"] = format
+		sc.Meta["keep_flags"] = []any{"-p=" + format, "ea", "-o=json", "-I0"}
 	case "encoder-domain":
 		g := &DocGen{R: r.Fork("doc"), Plain: true, Full: true}
 		sc.Files = []File{{Name: "f1.yaml", Docs: []string{g.Doc(DocID(r, 0, 0)).YAML()}, Mode: 0644}}
@@ -644,6 +678,40 @@ func (C19) Judge(c *Ctx, sc *Scenario) []Violation {
 		o2 := c.Exec(explicit)
 		if !bytes.Equal(o2.Stdout, out.Stdout) || o2.Exit != out.Exit {
 			add("O19.8", "auto="+auto, fmt.Sprintf("automatic format differs from explicit -p=%s -o=%s: auto exit=%d %q %s ; explicit exit=%d %q", auto, auto, out.Exit, clip(out.Stdout, 200), firstLines(out.Stderr, 2), o2.Exit, clip(o2.Stdout, 200)))
+		}
+	case "malformed":
+		format := sc.MetaString("format")
+		var badFile *File
+		badIdx := -1
+		for i, n := range names {
+			if f := sc.File(n); f != nil && MalformedFor(format, string(f.Bytes())) {
+				badFile, badIdx = f, i
+				break
+			}
+		}
+		if badFile == nil {
+			return vs
+		}
+		nontrivial = true
+		if !c.Quiet {
+			c.Count("fired.generated.malformed-" + format)
+		}
+		if !mustFail("O19.4", "malformed in="+format) {
+			return vs
+		}
+		if !evalAll && badIdx > 0 {
+			var files []File
+			for _, n := range names[:badIdx] {
+				if f := sc.File(n); f != nil {
+					files = append(files, *f)
+				}
+			}
+			argv := append(append([]string{}, flags...), sc.MetaString("expr"))
+			argv = append(argv, names[:badIdx]...)
+			ref := c.Ref(argv, files, nil)
+			if ref.Exit == 0 && !bytes.HasPrefix(out.Stdout, ref.Stdout) {
+				add("O19.4", "stdout malformed in="+format, fmt.Sprintf("the results of the inputs before the malformed one are missing: got %q want prefix %q", clip(out.Stdout, 300), clip(ref.Stdout, 300)))
+			}
 		}
 	case "encoder-domain":
 		nontrivial = true
